@@ -67,11 +67,23 @@ def generate(repo):
 def gen_stream(rng, response, lax):
     if response:
         n = rng.choice([1, 1, 2])
-        data = b"".join(H.gen_response(rng, lax) for _ in range(n))
+        msgs = [H.gen_response(rng, lax) for _ in range(n)]
     else:
         n = rng.choice([1, 1, 2, 3])
-        data = b"".join(H.gen_request(rng) for _ in range(n))
+        msgs = [H.gen_request(rng) for _ in range(n)]
     kind = "valid"
+    if rng.random() < 0.15:
+        # stray bytes at message boundaries (old clients send a CRLF after a body; the parser skips empty lines in
+        # front of a start line) — also behind the last message, and with messages that ask for the connection to close
+        kind = "stray_between"
+        if rng.random() < 0.6:
+            i = len(msgs) - 1 if rng.random() < 0.7 else rng.randrange(len(msgs))
+            j = msgs[i].find(b"\n")
+            msgs[i] = msgs[i][:j + 1] + b"Connection: close\r\n" + msgs[i][j + 1:]
+        stray = lambda: rng.choice([b"\r\n", b"\r\n", b"\r\n\r\n", b"\n", b"\r", b" ", b"\r\n \r\n", b"\n\r", b"0\r\n\r\n", b""])
+        tail = rng.choice([b"\r\n", b"\r\n", b"\r\n\r\n", b"\r\n\r\n\r\n"]) if rng.random() < 0.6 else stray()
+        return b"".join(m + stray() for m in msgs[:-1]) + msgs[-1] + tail, kind
+    data = b"".join(msgs)
     if rng.random() < 0.55:
         data, kind = H.mutate(rng, data)
     return data, kind
@@ -166,6 +178,11 @@ def corpus_cases():
     yield C(max_headers=6), b"GET / HTTP/1.1\r\nHost: x\r\nA: 1\r\nB: 2\r\nC: 3\r\n\r\n", "exactly-max-headers"
     yield C(response=True, lax=True), b"HTTP/1.1 200 OK\r\nTransfer-Encoding: chunked\r\n\r\n3\r\nabc\r\n0\n\rX: y\r\n\r\n", "lax-lfcr-before-trailer"
     yield C(response=True, lax=True), b"HTTP/1.1 200 OK\nTransfer-Encoding: chunked\n\n3\nabc\n\r0\n\r\n", "lax-lfcr-2"
+    # a stray CRLF behind the body of a message that closes the connection (old clients): empty lines are skipped
+    yield C(), b"POST /f HTTP/1.1\r\nHost: a\r\nConnection: close\r\nContent-Length: 3\r\n\r\nabc\r\n", "close-cl-stray-crlf"
+    yield C(), b"POST /f HTTP/1.1\r\nHost: a\r\nConnection: close\r\nTransfer-Encoding: chunked\r\n\r\n3\r\nabc\r\n0\r\n\r\n\r\n", "close-chunked-stray-crlf"
+    yield C(), b"POST /f HTTP/1.0\r\nContent-Length: 3\r\n\r\nabc\r\n\r\n", "http10-stray-crlf"
+    yield C(response=True, lax=True), b"HTTP/1.1 200 OK\r\nConnection: close\r\nContent-Length: 3\r\n\r\nabc\r\n", "resp-close-stray-crlf"
 
 
 def compressed_streams(rng):
